@@ -269,6 +269,18 @@ fn soa_diff(start: u32, end: u32) -> Option<InMemoryZoneDiff> {
 /// or a newer version gets a single SOA, an older client gets a transfer.
 /// Returns "single" | "transfer" | a description of anything else.
 pub fn ixfr_decision(rt: &tokio::runtime::Runtime, client: u32, zone_serial: u32) -> String {
+    ixfr_decision_with(rt, client, zone_serial, true)
+}
+
+/// The same request when the data provider has no diffs to offer
+/// (`with_diffs = false`): the middleware's `ixfr_client_is_current` decides
+/// between the single SOA and the fallback to a transfer of the whole zone.
+pub fn ixfr_decision_with(
+    rt: &tokio::runtime::Runtime,
+    client: u32,
+    zone_serial: u32,
+    with_diffs: bool,
+) -> String {
     let apex = Name::<Bytes>::from_str("example.").unwrap();
     let mut zb = ZoneBuilder::new(apex.clone(), Class::IN);
     if zb.insert_rrset(&apex, soa_rrset(zone_serial)).is_err() {
@@ -283,7 +295,10 @@ pub fn ixfr_decision(rt: &tokio::runtime::Runtime, client: u32, zone_serial: u32
         Some(d) => d,
         None => return "harness: no diff".into(),
     };
-    let provider = DiffProvider { zone, diffs: vec![Arc::new(diff)] };
+    let provider = DiffProvider {
+        zone,
+        diffs: if with_diffs { vec![Arc::new(diff)] } else { vec![] },
+    };
 
     let mut b = MessageBuilder::new_vec();
     b.header_mut().set_id(0x1234);
@@ -317,7 +332,13 @@ pub fn ixfr_decision(rt: &tokio::runtime::Runtime, client: u32, zone_serial: u32
             Err(rc) => return Err(format!("rcode {rc}")),
         };
         let mut out = vec![];
-        while let Some(item) = stream.next().await {
+        loop {
+            let next = tokio::time::timeout(std::time::Duration::from_secs(30), stream.next());
+            let item = match next.await {
+                Ok(Some(item)) => item,
+                Ok(None) => break,
+                Err(_) => return Err("the response stream does not end".to_string()),
+            };
             let item: Result<CallResult<Vec<u8>>, ServiceError> = item;
             let cr = item.map_err(|e| format!("service error {e}"))?;
             let end = matches!(cr.feedback(), Some(ServiceFeedback::EndTransaction));
